@@ -65,6 +65,7 @@ def mk_krige(model, cfg, cond_pos, cond_val):
     """Build the kriging object of a configuration dict."""
     v = cfg["variant"]
     dim = model.field_dim
+    ex = {"exact": True} if cfg.get("exact") else {}
     norm = _norm(cfg.get("norm", "None"))
     trend = None
     if cfg.get("trend") == "const":
@@ -75,15 +76,15 @@ def mk_krige(model, cfg, cond_pos, cond_val):
         mean = cfg.get("mean_val", 0.5)
         if cfg.get("mean") == "call":
             mean = _mean_fn(dim)
-        return gs.krige.Simple(model, cond_pos, cond_val, mean=mean, normalizer=norm, trend=trend)
+        return gs.krige.Simple(model, cond_pos, cond_val, mean=mean, normalizer=norm, trend=trend, **ex)
     if v == "ordinary":
-        return gs.krige.Ordinary(model, cond_pos, cond_val, normalizer=norm, trend=trend)
+        return gs.krige.Ordinary(model, cond_pos, cond_val, normalizer=norm, trend=trend, **ex)
     if v == "universal":
-        return gs.krige.Universal(model, cond_pos, cond_val, "linear", normalizer=norm, trend=trend)
+        return gs.krige.Universal(model, cond_pos, cond_val, "linear", normalizer=norm, trend=trend, **ex)
     if v == "extdrift":
-        return gs.krige.ExtDrift(model, cond_pos, cond_val, _drift_ext(cond_pos), normalizer=norm, trend=trend)
+        return gs.krige.ExtDrift(model, cond_pos, cond_val, _drift_ext(cond_pos), normalizer=norm, trend=trend, **ex)
     if v == "detrended":
-        return gs.krige.Detrended(model, cond_pos, cond_val, _trend_fn(dim))
+        return gs.krige.Detrended(model, cond_pos, cond_val, _trend_fn(dim), **ex)
     raise common.HarnessError(v)
 
 
@@ -462,6 +463,67 @@ def check_history(case, rec):
 
 
 # ---------------------------------------------------------------------------
+# nugget > 0 with exact kriging: zero measurement error, data must be honoured for every seed
+
+
+@st.composite
+def gen_nugget(draw, tier="quick"):
+    case = draw(_setup(tier).filter(_valid_layout))
+    case["spec"]["nugget"] = draw(logfloat(1e-2, 2.0)) * case["spec"]["var"]
+    case["cfg"]["exact"] = True
+    case["seeds"] = draw(st.lists(st.integers(0, 2**31 - 1), min_size=2, max_size=3, unique=True))
+    dim = case["spec"]["dim"]
+    n = draw(st.integers(1, 4))
+    case["pos"] = draw(gens.point_cloud(dim, n_min=n, n_max=n, kinds=("cloud",), scale=max(1.0, case["spec"]["len_scale"])))
+    return case
+
+
+def check_nugget(case, rec):
+    spec, cfg = case["spec"], case["cfg"]
+    dim = spec["dim"]
+    tags = dict(gens.spec_tags(spec), variant=cfg["variant"], nugget=True, exact=True)
+    rec.label(cfg["variant"])
+    cond_pos = np.array(case["cond_pos"], dtype=float).reshape(dim, -1)
+    cond_val = np.array(case["cond_val"], dtype=float)
+    tgt = np.array(case["pos"], dtype=float).reshape(dim, -1)
+    pos = np.concatenate([tgt, cond_pos], axis=1)
+    nt = tgt.shape[1]
+    with quiet():
+        model = lib(build_model, spec, _tags=tags)
+        krige = lib(mk_krige, model, cfg, cond_pos.copy(), cond_val.copy(), _tags=tags)
+        kc_ = float(np.linalg.cond(np.linalg.pinv(krige._krige_mat)))
+        if not np.isfinite(kc_) or kc_ > 1e9:
+            rec.exclude("ill_conditioned_system")
+            return
+        cs = lib(gs.CondSRF, krige, mode_no=case["mode_no"], _tags=tags)
+        fields = []
+        for sd in case["seeds"]:
+            f = lib(cs, pos.copy(), seed=sd, _tags=tags, **call_kwargs(cfg, pos))
+            require(bool(np.all(np.isfinite(f))) or cfg.get("norm", "None") != "None", "non-finite conditioned field", dict(tags, kind="nonfinite"))
+            fields.append(np.array(f))
+            if not np.all(np.isfinite(f[nt:])):
+                rec.exclude("oracle_outside_normalizer_range")
+                return
+            amp = 1.0 if cfg.get("norm", "None") == "None" else 4.0 * (1.0 + float(np.max(np.abs(cond_val))))
+            tol = max(1e-7, 1e-12 * kc_) * (1.0 + float(np.max(np.abs(cond_val)))) * amp * (1.0 + 1e3 * math.sqrt(64 * np.finfo(float).eps * kc_))
+            err = float(np.max(np.abs(f[nt:] - cond_val)))
+            rec.discrepancy("honours_data_nugget", err, tol)
+            require(
+                err <= tol,
+                f"exact kriging with a nugget: conditioned field (seed {sd}) misses the conditioning values by {err:.3g} (tol {tol:.3g})",
+                dict(tags, kind="honour_nugget"),
+            )
+        # different seeds give different fields away from the data (the random part is really there)
+        if nt and cfg.get("norm", "None") == "None":
+            require(
+                float(np.max(np.abs(fields[0][:nt] - fields[1][:nt]))) > 0 or float(np.max(krige.krige_var[:nt])) < 1e-12,
+                "two seeds give identical conditioned fields away from the data",
+                dict(tags, kind="no_randomness"),
+            )
+    rec.nontrivial(cond_pos.shape[1] >= 2)
+
+
+# ---------------------------------------------------------------------------
 # K8 probe: shifted positions inside the allclose window
 
 
@@ -497,5 +559,6 @@ def check_small_units(case, rec):
 SUBS = [
     Sub("input", gen_input, check_input, quick=500, thorough=12000, shards_quick=6, shards_thorough=8),
     Sub("history", gen_history, check_history, quick=320, thorough=8000, shards_quick=8, shards_thorough=8, nontrivial=_nontrivial_hist),
+    Sub("nugget_exact", gen_nugget, check_nugget, quick=200, thorough=5000, shards_quick=2, shards_thorough=4),
     Sub("small_units", gen_small_units, check_small_units, quick=12, thorough=60, shards_quick=1, shards_thorough=1),
 ]
